@@ -485,7 +485,9 @@ def purge(node: dawgie.pl.dag.Node, target: str):
     if node in que and not (node.get('todo', []) or node.get('doing', [])):
         que.remove(node)
 
-    for child in node:
+    # an algorithm that reads one of its own state vectors is its own child in
+    # the algorithm tree; skip that edge the same way Node.iter/locate do
+    for child in filter(lambda c, n=node.tag: c.tag != n, node):
         purge(child, target)
     return
 
